@@ -148,7 +148,7 @@ Record Inv (cfg : config) (h : hst) : Prop := mkInv {
   i_wf : wf_kv (st_kv (h_st h));
   i_notif : st_notif (h_st h) = true;
   i_next : 0 <= h_next h;
-  i_lo : 0 <= h_lo h;
+  i_lo : 0 <= h_lo h <= h_next h;
   i_sorted : StronglySorted off_lt (h_log h);
   i_range : Forall (fun b => 0 <= nb_offset b < h_next h) (h_log h);
   (* nothing else lives under "__oxia/notifications/" *)
@@ -249,7 +249,7 @@ Proof.
   - exact W'.
   - exact N'.
   - lia.
-  - exact i_lo0.
+  - lia.
   - apply sorted_snoc. split; assumption.
   - apply Forall_app. split; [eapply Forall_impl; [|exact i_range0]; intros a Ha; simpl in *; lia|].
     constructor; [simpl; lia|constructor].
@@ -300,6 +300,7 @@ Proof.
   destruct (versions_step _ _ _ _ _ _ _ _ P) as [Hv _]; [unfold TWO63; lia|lia|].
   constructor; cbn [h_st h_next h_lo h_log h_spec h_failed h_puts]; try rewrite Ekv; try assumption.
   - congruence.
+  - lia.
   - lia.
   - eapply Forall_impl; [|exact i_range0]. intros a Ha. simpl in *. lia.
   - congruence.
@@ -961,4 +962,299 @@ Proof.
     pose proof (R bt Hy) as Rt.
     assert (Et : t = nb_offset bt) by (apply nk_inj; [unfold TWO62, TWO63 in *; lia|unfold TWO62, TWO63 in *; lia|exact E1]).
     specialize (Hmono b bt Hb Hy ltac:(lia)). unfold ts_ms in *. lia.
+Qed.
+
+(* ---------------------------------------------------------------- retention: what the low-water mark means *)
+Definition trims_of (ops : list hop) : list (Z * Z) :=
+  fold_right (fun op acc => match op with HTrim now ret => (now, ret) :: acc | _ => acc end) [] ops.
+
+Lemma trims_of_app a b : trims_of (a ++ b) = trims_of a ++ trims_of b.
+Proof. induction a as [|op a IH]; simpl; [reflexivity|]. destruct op; rewrite IH; reflexivity. Qed.
+
+Lemma ts_monotone_prefix l nw : ts_monotone (l ++ nw) -> ts_monotone l.
+Proof. intros H a b Ha Hb. apply H; apply in_or_app; left; assumption. Qed.
+
+(* with timestamps non-decreasing in the offset, a committed batch is below the low-water mark only if some
+   trimming round found it older than the retention *)
+Theorem lo_means_expired cfg ops :
+  ops_user ops -> ops_small ops -> ts_monotone (h_log (hrun cfg ops)) ->
+  forall b, In b (h_log (hrun cfg ops)) -> nb_offset b < h_lo (hrun cfg ops) ->
+  exists now ret, In (now, ret) (trims_of ops) /\ ts_ms b <= now - ret.
+Proof.
+  induction ops as [|op ops IH] using rev_ind; intros Hu Hs Hm b Hb Hlt.
+  - simpl in Hb. contradiction.
+  - unfold ops_user in Hu. apply Forall_app in Hu. destruct Hu as [Hu1 Hu2].
+    pose proof (ops_small_app _ _ Hs) as Hs1.
+    destruct (inv_run cfg ops Hu1 Hs1) as [I [Hn _]].
+    assert (Hn62 : h_next (hrun cfg ops) < TWO62) by (rewrite Hn; apply Hs1).
+    rewrite hrun_snoc in *. rewrite trims_of_app.
+    assert (Hlift : (exists now ret, In (now, ret) (trims_of ops) /\ ts_ms b <= now - ret) ->
+                    exists now ret, In (now, ret) (trims_of ops ++ trims_of [op]) /\ ts_ms b <= now - ret).
+    { intros [now [ret [H1 H2]]]. exists now, ret. split; [apply in_or_app; left; exact H1|exact H2]. }
+    destruct (hstep_log_prefix cfg (hrun cfg ops) op) as [nw Enw].
+    assert (Hm0 : ts_monotone (h_log (hrun cfg ops))) by (rewrite Enw in Hm; eapply ts_monotone_prefix; exact Hm).
+    destruct op as [req ts|now ret|].
+    + (* a write: the mark does not move; a new batch is at h_next, above the mark *)
+      simpl in Hb, Hlt.
+      destruct (process_write wrapper_callbacks cfg (h_st (hrun cfg ops)) req (h_next (hrun cfg ops)) ts) as [st' [resp|e]] eqn:P;
+        simpl in Hb, Hlt.
+      * apply in_app_or in Hb. destruct Hb as [Hb|Hb]; [apply Hlift, IH; assumption|].
+        exfalso. destruct (stored_batch st' (h_next (hrun cfg ops))) as [b0|] eqn:S; [|contradiction].
+        destruct Hb as [<-|[]].
+        assert (I2 : Inv cfg (hstep cfg (hrun cfg ops) (HWrite req ts))).
+        { inversion Hu2 as [|? ? Hop _]; subst. eapply inv_write_ok; [exact I|exact Hop|lia| |exact P].
+          destruct (inv_run cfg ops Hu1 Hs1) as [_ [_ Hp]]. rewrite Hp. destruct Hs as [_ Hs2]. rewrite ops_puts_app in Hs2. simpl in Hs2. lia. }
+        unfold hstep in I2. rewrite P, S in I2.
+        pose proof (i_sorted _ _ I2) as Srt. cbn [h_log] in Srt. apply sorted_snoc in Srt.
+        pose proof (i_kept _ _ I2 b0) as K. cbn [h_log h_lo h_st] in K.
+        pose proof (i_range _ _ I2) as R2. cbn [h_log h_next] in R2. apply Forall_app in R2. destruct R2 as [_ R2].
+        inversion R2 as [|? ? Rb _]; subst.
+        (* b0 is the batch stored under h_next; its offset is h_next, which is not below the mark *)
+        unfold stored_batch in S. destruct (kv_get (st_kv st') (notification_key (h_next (hrun cfg ops)))) as [[e0|bb]|] eqn:G; try discriminate.
+        inversion S; subst bb.
+        destruct (i_stored _ _ I2 _ _ G (notif_class_nk _)) as [y [Hy [E1 E2]]]. inversion E2; subst y.
+        pose proof TWO62_lt. pose proof (i_next _ _ I).
+        assert (h_next (hrun cfg ops) = nb_offset b0) by (apply nk_inj; [unfold TWO62, TWO63 in *; lia|unfold TWO62, TWO63 in *; lia|exact E1]).
+        pose proof (i_lo _ _ I). lia.
+      * apply Hlift, IH; assumption.
+    + simpl in Hb, Hlt. destruct (trim (h_st (hrun cfg ops)) now ret) as [|t st'|e] eqn:T; simpl in Hb, Hlt;
+        try (apply Hlift, IH; assumption).
+      destruct (Z_lt_ge_dec (nb_offset b) (h_lo (hrun cfg ops))) as [Hold|Hnew]; [apply Hlift, IH; assumption|].
+      exists now, ret. split; [apply in_or_app; right; left; reflexivity|].
+      destruct (trim_char _ _ _ _ _ _ I Hn62 T) as [_ Hexp].
+      apply (Hexp Hm0 b Hb); [|lia].
+      unfold stored_batch. rewrite (i_kept _ _ I b Hb ltac:(lia)). reflexivity.
+    + simpl in Hb, Hlt. destruct (reopen (persist (h_st (hrun cfg ops)))); simpl in Hb, Hlt; apply Hlift, IH; assumption.
+Qed.
+
+(* ---------------------------------------------------------------- the client *)
+Definition evs_of (bs : list nbatch) : list (Z * list (key * notif)) := map (fun b => (nb_offset b, nb_notifs b)) bs.
+
+Lemma last_offset_cons b bs d : last_offset (b :: bs) d = last_offset bs (nb_offset b).
+Proof.
+  unfold last_offset. simpl. destruct (rev bs) as [|x tl] eqn:R; simpl; [reflexivity|reflexivity].
+Qed.
+
+Lemma client_recv_all_init bs : forall c, cl_init c = true ->
+  client_recv_all c bs = (mkClient (last_offset bs (cl_last c)) true, evs_of bs).
+Proof.
+  induction bs as [|b bs IH]; intros c Hc; simpl.
+  - destruct c; simpl in *; subst; reflexivity.
+  - rewrite Hc. rewrite (IH (mkClient (nb_offset b) true) eq_refl). simpl. rewrite last_offset_cons. reflexivity.
+Qed.
+
+Lemma serve_resume cfg st qc l : st_notif st = true -> serve cfg st qc (Some l) = dispatch 3 st l.
+Proof. intro H. unfold serve, serve_start. rewrite H. cbn [negb]. destruct (dispatch 3 st l). reflexivity. Qed.
+
+Lemma serve_first cfg st qc :
+  st_notif st = true ->
+  serve cfg st qc None = (mkNBatch (cfg_shard cfg) qc 0 [] :: fst (dispatch 3 st qc), snd (dispatch 3 st qc)).
+Proof. intro H. unfold serve, serve_start. rewrite H. cbn [negb]. destruct (dispatch 3 st qc). reflexivity. Qed.
+
+(* The repaired client.  First connection on a store at history [ops1]: it receives the dummy batch at [qc1] and
+   [k1] real batches, then the stream breaks; second connection on the same or any later store: it receives
+   [k2] more.  What it hands to the application is a prefix, in order, of all committed batches above its
+   initial position, each exactly once — and this holds for [qc1 = -1] (empty shard) too. *)
+Theorem client_resume cfg ops1 ops2 qc1 qc2 k1 k2 :
+  ops_user (ops1 ++ ops2) -> ops_small (ops1 ++ ops2) ->
+  let h1 := hrun cfg ops1 in
+  let h2 := hrun cfg (ops1 ++ ops2) in
+  h_lo h1 <= qc1 + 1 -> -1 <= qc1 < TWO62 ->
+  let '(c1, ev1) := session client_request cfg (h_st h1) qc1 (S k1) client_new in
+  h_lo h2 <= cl_last c1 + 1 ->
+  let '(c2, ev2) := session client_request cfg (h_st h2) qc2 k2 c1 in
+  exists seen rest,
+    above qc1 (h_log h2) = seen ++ rest /\
+    ev1 = evs_of seen /\ ev2 = evs_of (firstn k2 rest) /\
+    cl_init c2 = true /\ cl_last c2 = last_offset (seen ++ firstn k2 rest) qc1.
+Proof.
+  intros Hu Hs. cbn zeta. intros Hlo1 Hq.
+  assert (Hu1 : ops_user ops1) by (unfold ops_user in *; apply Forall_app in Hu; apply Hu).
+  destruct (inv_run cfg ops1 Hu1 (ops_small_app _ _ Hs)) as [I1 _].
+  destruct (inv_run cfg (ops1 ++ ops2) Hu Hs) as [I2 _].
+  unfold session at 1. change (client_request client_new) with (@None Z). rewrite serve_first by apply (i_notif _ _ I1).
+  cbn [firstn client_recv_all client_recv client_new cl_init app nb_offset].
+  set (D1 := fst (dispatch 3 (h_st (hrun cfg ops1)) qc1)).
+  rewrite (client_recv_all_init (firstn k1 D1) (mkClient qc1 true) eq_refl). cbn [cl_last].
+  intro Hlo2.
+  unfold session. cbn [client_request cl_init cl_last]. rewrite serve_resume by apply (i_notif _ _ I2).
+  destruct (resume_char cfg ops1 ops2 qc1 k1 1 Hu Hs Hlo1 Hq Hlo2) as [E _]. fold D1 in E.
+  destruct (dispatch 3 (h_st (hrun cfg (ops1 ++ ops2))) (last_offset (firstn k1 D1) qc1)) as [D2 stop2] eqn:Dd. cbn [fst] in E.
+  rewrite (client_recv_all_init (firstn k2 D2) (mkClient (last_offset (firstn k1 D1) qc1) true) eq_refl). cbn [cl_last cl_init].
+  exists (firstn k1 D1), D2. split; [symmetry; exact E|]. split; [reflexivity|]. split; [reflexivity|]. split; [reflexivity|].
+  unfold last_offset. rewrite rev_app_distr.
+  destruct (rev (firstn k2 D2)) as [|x tl]; [rewrite app_nil_l; reflexivity|reflexivity].
+Qed.
+
+(* ---------------------------------------------------------------- witnesses *)
+Definition ex_cfg : config := mkConfig 7 100.
+Definition put1 (k v : N) : write_req := mkWrite [mkPut [k] [v] None None None None [] []] [] [].
+Definition ex_two : list hop := [HWrite (put1 97 1) 10; HWrite (put1 98 2) 20].
+
+Lemma put1_user k v : is_internal [k] = false -> user_request (put1 k v).
+Proof. intro H. split; [constructor; [exact H|constructor]|]. split; constructor. Qed.
+
+Lemma ex_two_user : ops_user ([] ++ ex_two).
+Proof. repeat constructor. Qed.
+Lemma ex_two_small : ops_small ([] ++ ex_two).
+Proof. split; reflexivity. Qed.
+
+(* O-17, the code as found: "lastOffsetReceived >= 0" decides whether the request carries a start offset.
+   A subscriber initialised on an EMPTY shard (dummy batch at offset -1) whose stream breaks before the first
+   real batch reconnects without a start offset: the server positions it at the current commit offset (a second
+   dummy batch, which the client now takes for a real, empty one) and the two requests committed in between are
+   never delivered, although nothing was trimmed and the client believes it is caught up. *)
+Theorem resume_empty_shard_refuted :
+  exists cfg ops1 ops2 qc1 qc2,
+    ops_user (ops1 ++ ops2) /\ ops_small (ops1 ++ ops2) /\
+    let h1 := hrun cfg ops1 in
+    let h2 := hrun cfg (ops1 ++ ops2) in
+    let '(c1, ev1) := session client_request_o17 cfg (h_st h1) qc1 1 client_new in
+    let '(c2, ev2) := session client_request_o17 cfg (h_st h2) qc2 10 c1 in
+    h_lo h2 = 0 /\ qc1 = -1 /\ qc2 = last_off (h_log h2) /\ cl_last c2 = last_off (h_log h2) /\
+    exists b, In b (h_log h2) /\ qc1 < nb_offset b <= cl_last c2 /\ nb_notifs b <> [] /\
+              ~ In (nb_offset b, nb_notifs b) (ev1 ++ ev2).
+Proof.
+  exists ex_cfg, [], ex_two, (-1), 1. split; [exact ex_two_user|]. split; [exact ex_two_small|].
+  cbn zeta.
+  destruct (session client_request_o17 ex_cfg (h_st (hrun ex_cfg [])) (-1) 1 client_new) as [c1 ev1] eqn:S1.
+  vm_compute in S1. inversion S1; subst c1 ev1; clear S1.
+  destruct (session client_request_o17 ex_cfg (h_st (hrun ex_cfg ([] ++ ex_two))) 1 10 (mkClient (-1) true)) as [c2 ev2] eqn:S2.
+  vm_compute in S2. inversion S2; subst c2 ev2; clear S2.
+  assert (L : h_log (hrun ex_cfg ([] ++ ex_two)) =
+              [mkNBatch 7 0 10 [([97%N], NCreated 0)]; mkNBatch 7 1 20 [([98%N], NCreated 1)]]) by (vm_compute; reflexivity).
+  assert (Lo : h_lo (hrun ex_cfg ([] ++ ex_two)) = 0) by (vm_compute; reflexivity).
+  rewrite L, Lo. cbn [cl_last].
+  split; [reflexivity|]. split; [reflexivity|]. split; [reflexivity|]. split; [reflexivity|].
+  exists (mkNBatch 7 0 10 [([97%N], NCreated 0)]). split; [left; reflexivity|]. cbn [nb_offset nb_notifs].
+  split; [lia|]. split; [discriminate|]. intros [H|[]]. discriminate.
+Qed.
+
+(* the same scenario with the repaired request rule: both batches arrive (an instance of client_resume) *)
+Example resume_empty_shard_repaired :
+  let h1 := hrun ex_cfg [] in
+  let h2 := hrun ex_cfg ([] ++ ex_two) in
+  let '(c1, ev1) := session client_request ex_cfg (h_st h1) (-1) 1 client_new in
+  let '(c2, ev2) := session client_request ex_cfg (h_st h2) 1 10 c1 in
+  ev1 ++ ev2 = evs_of (h_log h2) /\ cl_last c2 = 1.
+Proof. vm_compute. split; reflexivity. Qed.
+
+(* without the hypothesis on timestamps: offset 1 (timestamp 100) is inside the retention (cut-off 50) and is
+   trimmed all the same, because the binary search lands on offset 3 *)
+Definition ex_four : list hop :=
+  [HWrite (put1 97 1) 10; HWrite (put1 98 2) 100; HWrite (put1 99 3) 20; HWrite (put1 100 4) 30].
+
+Theorem trim_nonmonotone_refuted :
+  exists cfg ops now retention t st' b,
+    ops_user ops /\ ops_small ops /\
+    trim (h_st (hrun cfg ops)) now retention = TrTrimmed t st' /\
+    In b (h_log (hrun cfg ops)) /\ stored_batch (h_st (hrun cfg ops)) (nb_offset b) = Some b /\
+    now - retention < ts_ms b /\ stored_batch st' (nb_offset b) = None.
+Proof.
+  exists ex_cfg, ex_four, 50, 0.
+  destruct (trim (h_st (hrun ex_cfg ex_four)) 50 0) as [|t st'|e] eqn:T; try (vm_compute in T; discriminate).
+  exists t, st', (mkNBatch 7 1 100 [([98%N], NCreated 1)]).
+  split; [repeat constructor|]. split; [split; reflexivity|]. split; [reflexivity|].
+  split; [right; left; reflexivity|]. split; [reflexivity|]. split; [reflexivity|].
+  vm_compute in T. inversion T. reflexivity.
+Qed.
+
+(* a request on user keys whose application fails (here: a sequence put without partition key, C13's subject)
+   leaves its offset without a batch; the next request's batch follows under the next offset *)
+Definition ex_seq_no_partition : write_req := mkWrite [mkPut [115%N] [1%N] None None None None [1%N] []] [] [].
+
+Example failed_application_leaves_gap :
+  let h := hrun ex_cfg [HWrite ex_seq_no_partition 5; HWrite (put1 97 1) 10] in
+  h_failed h = [0] /\ map nb_offset (h_log h) = [1] /\ stored_batch (h_st h) 0 = None.
+Proof. vm_compute. repeat split. Qed.
+
+(* non-vacuity of the hypotheses of the main theorems: a history with a trimming round and a re-open in it *)
+Definition ex_hist : list hop :=
+  [HWrite (put1 97 1) 10; HWrite (put1 97 2) 20; HTrim 1015 1000; HReopen; HWrite (mkWrite [] [mkDel [97%N] None] []) 30;
+   HTrim 1025 1000].
+
+Example ex_hist_ok :
+  ops_user ex_hist /\ ops_small ex_hist /\ ts_monotone (h_log (hrun ex_cfg ex_hist)) /\
+  h_lo (hrun ex_cfg ex_hist) = 2 /\
+  map (fun b => (nb_offset b, nb_notifs b)) (h_log (hrun ex_cfg ex_hist))
+  = [(0, [([97%N], NCreated 0)]); (1, [([97%N], NModified 1)]); (2, [([97%N], NDeleted)])] /\
+  fst (dispatch 3 (h_st (hrun ex_cfg ex_hist)) 1) = above 1 (h_log (hrun ex_cfg ex_hist)).
+Proof.
+  split; [repeat constructor|]. split; [split; reflexivity|]. split.
+  - intros a b Ha Hb Hle. vm_compute in Ha, Hb.
+    destruct Ha as [<-|[<-|[<-|[]]]]; destruct Hb as [<-|[<-|[<-|[]]]]; vm_compute in Hle |- *; try discriminate; try contradiction;
+      try (exfalso; apply Hle; reflexivity).
+  - vm_compute. repeat split.
+Qed.
+
+(* ---------------------------------------------------------------- statements over reachable states *)
+Lemma ops_small_next cfg ops : ops_user ops -> ops_small ops -> h_next (hrun cfg ops) < TWO62.
+Proof. intros Hu Hs. destruct (inv_run cfg ops Hu Hs) as [_ [Hn _]]. rewrite Hn. apply Hs. Qed.
+
+(* EVERY request and every callback set (system requests of the session manager and hostile ones included):
+   with notifications enabled, an applied request stores one batch under its offset, which is the fold of the
+   request's answers and names no key under "__oxia/" *)
+Theorem batch_any_request cb cfg st req offset ts st' resp :
+  st_notif st = true -> process_write cb cfg st req offset ts = (st', Ok resp) ->
+  exists nm,
+    kv_get (st_kv st') (notification_key offset) = Some (VNotif (mkNBatch (cfg_shard cfg) offset ts nm)) /\
+    NoDup (map fst nm) /\ (forall k, nm_get nm k = resp_changes req resp k) /\
+    (forall k n, In (k, n) nm -> is_internal k = false).
+Proof.
+  intros Hn H. rewrite process_write_unfold in H.
+  destruct (apply_write_request cb (cfg_threshold cfg) (start_write st) req ts) as [w [r|e]] eqn:A; [|discriminate].
+  inversion H; subst st' resp; clear H.
+  assert (Hrep0 : nm_rep (w_nm (start_write st)) chg_empty) by (unfold start_write; simpl; rewrite Hn; apply nm_rep_empty).
+  destruct (request_nm _ _ _ _ _ _ _ _ A Hrep0) as [nm [Enm [Hd Hg]]].
+  unfold commit_write. rewrite Enm. simpl. exists nm. rewrite kv_get_put_same.
+  split; [reflexivity|]. split; [exact Hd|]. split; [exact Hg|].
+  intros k n Hin. apply (resp_changes_clean req r k n). rewrite <- Hg. apply nm_in_get; assumption.
+Qed.
+
+Theorem batch_of_request_reachable cfg ops req ts st' resp :
+  ops_user ops -> user_request req -> ops_small (ops ++ [HWrite req ts]) ->
+  process_write wrapper_callbacks cfg (h_st (hrun cfg ops)) req (h_next (hrun cfg ops)) ts = (st', Ok resp) ->
+  exists nm,
+    stored_batch st' (h_next (hrun cfg ops)) = Some (mkNBatch (cfg_shard cfg) (h_next (hrun cfg ops)) ts nm) /\
+    NoDup (map fst nm) /\
+    (forall k, nm_get nm k = changes (abs_state (h_st (hrun cfg ops))) req (map seq_choice_of (wr_puts resp)) ts k) /\
+    (forall k n, nm_get nm k = Some n -> is_internal k = false).
+Proof.
+  intros Hu Hr Hs P. pose proof (ops_small_app _ _ Hs) as Hs1.
+  destruct (inv_run cfg ops Hu Hs1) as [I [_ Hp]].
+  apply (batch_of_request cfg _ req ts st' resp I Hr); [|exact P].
+  rewrite Hp. destruct Hs as [_ Hs2]. rewrite ops_puts_app in Hs2. simpl in Hs2. lia.
+Qed.
+
+Theorem stream_reachable cfg ops from fuel :
+  ops_user ops -> ops_small ops ->
+  let h := hrun cfg ops in
+  h_lo h <= from + 1 -> -1 <= from < TWO62 ->
+  let D := fst (dispatch (S (S fuel)) (h_st h) from) in
+  D = above from (h_log h) /\
+  StronglySorted off_lt D /\
+  (forall b, In b D -> In b (h_log h) /\ from < nb_offset b) /\
+  (forall b, In b D -> nb_offset b <= last_off (h_log h)) /\
+  read_commit_offset (h_st h) = Ok (last_off (h_log h)) /\
+  (forall o, from < o < h_next h -> In o (map nb_offset D) \/ In o (h_failed h)) /\
+  exists stop, snd (dispatch (S (S fuel)) (h_st h) from) = DWait stop.
+Proof.
+  intros Hu Hs. cbn zeta. intros Hlo Hf. destruct (inv_run cfg ops Hu Hs) as [I _].
+  pose proof (ops_small_next cfg ops Hu Hs) as Hn.
+  split; [rewrite (dispatch_char cfg _ from fuel I ltac:(lia) Hlo Hf); reflexivity|].
+  apply (dispatch_facts cfg _ from fuel I ltac:(lia) Hlo Hf).
+Qed.
+
+Theorem trim_reachable cfg ops now retention t st' :
+  ops_user ops -> ops_small ops ->
+  let h := hrun cfg ops in
+  trim (h_st h) now retention = TrTrimmed t st' ->
+  (forall b, In b (h_log h) -> stored_batch (h_st h) (nb_offset b) = Some b ->
+             stored_batch st' (nb_offset b) = if nb_offset b <=? t then None else Some b) /\
+  (ts_monotone (h_log h) ->
+   forall b, In b (h_log h) -> stored_batch (h_st h) (nb_offset b) = Some b -> nb_offset b <= t ->
+             ts_ms b <= now - retention).
+Proof.
+  intros Hu Hs. cbn zeta. intro T. destruct (inv_run cfg ops Hu Hs) as [I _].
+  exact (trim_char cfg _ now retention t st' I (ops_small_next cfg ops Hu Hs) T).
 Qed.
